@@ -1,6 +1,12 @@
 /- driver family `forest`: C11 histories of tree-editing operations, C18 `copy` steps inside such
-histories, and the label iteration of `copy()` (`label` / `copylabel`, stateless) -/
+histories, and the label iteration of `copy()` (`label` / `copylabel`, stateless).
+The state is the attributed forest of Model/ForestAttr.lean; `init` builds default attributes and the answers show
+the tree only (C11 stream), `ainit` builds objects from explicit specs and every answer also shows all attribute
+values and the sharing structure of the containers: addresses are printed as the index of their first occurrence in
+any dump of the history (walk: objects in id order, slots pos, ori, a0..a3, style), so that an address that stays is
+told from one that is replaced. -/
 import MagpyVerif.Model.Copy
+import MagpyVerif.Model.ForestAttr
 import Driver.Parse
 
 namespace Driver.ForestFam
@@ -25,7 +31,9 @@ def dump (s : Forest) : String :=
 
 inductive Cmd where
   | init (ks : List Kind)
-  | op (o : Forest.COp)
+  | ainit (specs : List AForest.Spec)
+  | op (o : AOp)
+  | allviews
   | label (name : List Char)
   | copylabel (cls : List Char) (touched : Bool) (label : Option (List Char))
 
@@ -43,33 +51,165 @@ partial def kinds : P (List Kind) := do
   | [] => pure []
   | _ => do let k ← kind; let r ← kinds; pure (k :: r)
 
+def vec : P AVec := do pure ⟨← int, ← int, ← int⟩
+def rot : P ARot := do pure ⟨← vec, ← vec, ← vec⟩
+def ints : P (List Int) := do let n ← nat; many n int
+def slot : P Slot := do pure (Slot.ofCode (← nat))
+def pairs : P (List (Nat × Int)) := do let n ← nat; many n (do pure ((← nat), (← int)))
+def sdata : P SData := do
+  let has ← bool
+  let l ← if has then (do pure (some (← chars))) else pure none
+  pure { label := l, props := ← pairs }
+
+def pathIn {α} (p : P α) : P (PathIn α) := do
+  match (← tok) with
+  | "s" => pure (.scalar (← p))
+  | "v" => do let n ← nat; pure (.vector (← many n p))
+  | t => throw s!"bad pathIn tag {t}"
+
+def start : P (Option Int) := do
+  match (← tok) with
+  | "a" => pure none
+  | "i" => pure (some (← int))
+  | t => throw s!"bad start tag {t}"
+
+def anchor : P (Option (PathIn AVec)) := do
+  match (← tok) with
+  | "n" => pure none
+  | "s" => pure (some (.scalar (← vec)))
+  | "v" => do let n ← nat; pure (some (.vector (← many n vec)))
+  | t => throw s!"bad anchor tag {t}"
+
+def spec : P AForest.Spec := do
+  let k ← kind; let cls ← nat
+  let np ← nat; let pos ← many np vec
+  let na ← nat; let arrs ← many na (do pure ((← slot), (← ints)))
+  let scal ← pairs
+  let skw ← sdata
+  pure { kind := k, cls := cls, pos := pos, arrs := arrs, scal := scal, skw := skw }
+
+def ov : P AForest.Ov := do
+  match (← tok) with
+  | "pos" => do let n ← nat; pure (.pos (← many n vec))
+  | "arr" => do let sl ← slot; pure (.arr sl (← ints))
+  | "scal" => do pure (.scal (← nat) (← int))
+  | "label" => do pure (.label (← chars))
+  | "sprop" => do pure (.sprop (← nat) (← int))
+  | t => throw s!"bad override {t}"
+
 def cmd : P Cmd := do
   match (← tok) with
   | "init" => pure (.init (← kinds))
-  | "add" => do let c ← nat; let ov ← bool; let os ← ids; pure (.op (.base (.add c os ov)))
-  | "remove" => do let c ← nat; let r ← bool; let e ← bool; let os ← ids; pure (.op (.base (.remove c os r e)))
+  | "ainit" => do let n ← nat; pure (.ainit (← many n spec))
+  | "add" => do let c ← nat; let ov ← bool; let os ← ids; pure (.op (.tree (.add c os ov)))
+  | "remove" => do let c ← nat; let r ← bool; let e ← bool; let os ← ids; pure (.op (.tree (.remove c os r e)))
   | "parent" => do
       let o ← nat; let p ← int
-      pure (.op (.base (.setParent o (if p < 0 then none else some p.toNat))))
-  | "children" => do let c ← nat; let os ← ids; pure (.op (.base (.setChildren c os)))
-  | "typed" => do let c ← nat; let k ← kind; let os ← ids; pure (.op (.base (.setTyped c k os)))
-  | "plus" => do let a ← nat; let b ← nat; pure (.op (.base (.plus a b)))
-  | "bad" => pure (.op (.base .rejected))
-  | "copy" => do let o ← nat; pure (.op (.copy o))
+      pure (.op (.tree (.setParent o (if p < 0 then none else some p.toNat))))
+  | "children" => do let c ← nat; let os ← ids; pure (.op (.tree (.setChildren c os)))
+  | "typed" => do let c ← nat; let k ← kind; let os ← ids; pure (.op (.tree (.setTyped c k os)))
+  | "plus" => do let a ← nat; let b ← nat; pure (.op (.tree (.plus a b)))
+  | "bad" => pure (.op (.tree .rejected))
+  | "copy" => do let o ← nat; pure (.op (.copy o []))
+  | "acopy" => do let o ← nat; let n ← nat; pure (.op (.copy o (← many n ov)))
+  | "amove" => do let x ← nat; let i ← pathIn vec; let s ← start; pure (.op (.move x i s))
+  | "arot" => do let x ← nat; let r ← pathIn rot; let an ← anchor; let s ← start; pure (.op (.rotate x r an s))
+  | "asetpos" => do let x ← nat; let n ← nat; pure (.op (.setPos x (← many n vec)))
+  | "asetarr" => do let x ← nat; let sl ← slot; pure (.op (.setArr x sl (← ints)))
+  | "asetscal" => do let x ← nat; pure (.op (.setScal x (← nat) (← int)))
+  | "alabel" => do let x ← nat; pure (.op (.setLabel x (← chars)))
+  | "aprop" => do let x ← nat; pure (.op (.setProp x (← nat) (← int)))
+  | "arealise" => do pure (.op (.touchStyle (← nat)))
+  | "allviews" => pure .allviews
   | "label" => do pure (.label (← chars))
   | "copylabel" => do
       let cls ← chars; let touched ← bool; let has ← bool
       if has then pure (.copylabel cls touched (some (← chars))) else pure (.copylabel cls touched none)
   | t => throw s!"unknown forest command {t}"
 
-def step (st : Option Forest) (line : String) : Option Forest × String :=
+/-- driver state: the attributed forest, whether attributes are shown, and the addresses seen so far -/
+structure FSt where
+  s : AForest
+  attr : Bool
+  seen : List Nat
+
+def fmtV (v : AVec) : String := s!"{v.x} {v.y} {v.z}"
+def fmtR (m : ARot) : String := s!"{fmtV m.r1} {fmtV m.r2} {fmtV m.r3}"
+
+/-- canonical index of an address (first occurrence over the whole history) -/
+def canon (seen : List Nat) (a : Nat) : List Nat × Nat :=
+  let i := seen.idxOf a
+  if i < seen.length then (seen, i) else (seen ++ [a], seen.length)
+
+def optInt : Option Int → String
+  | none => "-"
+  | some v => toString v
+
+def dumpAttrs (s : AForest) (seen0 : List Nat) : List Nat × String := Id.run do
+  let mut seen := seen0
+  let mut parts : Array String := #[]
+  for i in [0:s.f.n] do
+    let r := s.na i
+    let mut line := s!"{i} c{r.cls}"
+    for sl in [Slot.pos, Slot.ori, Slot.a0, Slot.a1, Slot.a2, Slot.a3] do
+      match r.adr sl with
+      | none => pure ()
+      | some a =>
+        let (sn, ix) := canon seen a
+        seen := sn
+        let body := match s.heap a with
+          | .vecs l => s!"v{l.length} " ++ " ".intercalate (l.map fmtV)
+          | .rots l => s!"r{l.length} " ++ " ".intercalate (l.map fmtR)
+          | .ints l => s!"i{l.length} " ++ " ".intercalate (l.map toString)
+          | _ => "?"
+        line := line ++ s!" [{sl.code}@{ix} {body}]"
+    let sc := " ".intercalate (r.scal.map fun e => s!"{e.1}={e.2}")
+    line := line ++ s!" S({sc})"
+    match r.adr .style with
+    | none => line := line ++ " Y-"
+    | some a =>
+      let (sn, ix) := canon seen a
+      seen := sn
+      line := line ++ s!" Y@{ix}"
+    let v := s.styleView i
+    let lab := match v.label with | none => "none" | some l => showChars l
+    line := line ++ s!" K{if r.skw.nonempty then 1 else 0} L {lab} p0={optInt (v.getProp 0)} p1={optInt (v.getProp 1)}"
+    parts := parts.push line
+  return (seen, " | ".intercalate parts.toList)
+
+def allViews (f : Forest) : String :=
+  let one (c : Nat) : String :=
+    s!"{c} A{f.flatAll (fun _ => true) f.n c} S{f.flatAll (fun k => k = .src) f.n c} " ++
+    s!"E{f.flatAll (fun k => k = .sens) f.n c} L{f.flatAll (fun k => k = .coll) f.n c}"
+  " | ".intercalate (((List.range f.n).filter fun c => f.kind c = .coll).map one)
+
+def answer (st : FSt) (tag : String) : FSt × String :=
+  if st.attr then
+    let (seen, a) := dumpAttrs st.s st.seen
+    ({ st with seen := seen }, s!"{tag} {dump st.s.f} ## {a}")
+  else (st, s!"{tag} {dump st.s.f}")
+
+def defaultSpec (k : Kind) : AForest.Spec :=
+  { kind := k, cls := (match k with | .src => 0 | .sens => 4 | .coll => 5), pos := [(0 : AVec)], arrs := [], scal := [],
+    skw := SData.empty }
+
+def step (st : Option FSt) (line : String) : Option FSt × String :=
   match runLine cmd line with
   | .error e => (st, s!"parse-error {e}")
-  | .ok (.init ks) => let s := Forest.init ks; (some s, s!"ok {dump s}")
+  | .ok (.init ks) =>
+      let (st', out) := answer { s := AForest.init (ks.map defaultSpec), attr := false, seen := [] } "ok"
+      (some st', out)
+  | .ok (.ainit specs) =>
+      let (st', out) := answer { s := AForest.init specs, attr := true, seen := [] } "ok"
+      (some st', out)
   | .ok (.op o) => match st with
-      | some s =>
-        let r := s.stepC o
-        (some r.1, s!"{if r.2 then "ok" else "err"} {dump r.1}")
+      | some t =>
+        let r := t.s.step o
+        let (st', out) := answer { t with s := r.1 } (if r.2 then "ok" else "err")
+        (some st', out)
+      | none => (st, "no-forest")
+  | .ok .allviews => match st with
+      | some t => (st, s!"ok {allViews t.s.f}")
       | none => (st, "no-forest")
   | .ok (.label name) => (st, s!"ok {showChars (addIterationSuffix name)}")
   | .ok (.copylabel cls touched label) =>
